@@ -24,9 +24,9 @@ theorem ownFrom_drop (wf : Wf) (d : CompDef) (k rs rb : Nat) :
     rw [this, List.drop_of_length_le h', List.drop_of_length_le (by omega)]
     simp [ownFrom, finalOf]
 
-theorem taskExit_inv {wf exc s} (c : Nat) (hI : Inv wf exc s) : Inv wf exc (taskExit wf s c) := by
+theorem taskExitCore_inv {wf exc s} (c : Nat) (hI : Inv wf exc s) : Inv wf exc (taskExitCore wf s c) := by
   have hcI := hI.ci c
-  unfold taskExit
+  unfold taskExitCore
   dsimp only
   split
   · rename_i hcond
@@ -66,6 +66,12 @@ theorem taskExit_inv {wf exc s} (c : Nat) (hI : Inv wf exc s) : Inv wf exc (task
         exact hs1
       · simp only [push_comp, upd_comp, hj, if_false, push_done, upd_done, push_pending, upd_pending]
         exact (hI.ci j).push _ (by simp)
+  · exact hI
+
+theorem taskExit_inv {wf exc s} (c : Nat) (hI : Inv wf exc s) : Inv wf exc (taskExit wf s c) := by
+  unfold taskExit
+  split
+  · exact taskExitCore_inv c hI
   · exact hI
 
 /-! ## delivering a notification: the in-flight notification is the exception `exc` -/
@@ -190,8 +196,8 @@ theorem deliverPM_mono {wf s} (c : Nat) (hI : Inv wf none s) : Mono s (deliverPM
             ⟨fun _ h => h, fun _ _ h => h, rfl⟩ (finish_mono hct)
   · simp only [hp, if_false]; exact Mono.refl s
 
-theorem taskExit_mono {wf exc s} (c : Nat) (hI : Inv wf exc s) : Mono s (taskExit wf s c) := by
-  unfold taskExit
+theorem taskExitCore_mono {wf exc s} (c : Nat) (hI : Inv wf exc s) : Mono s (taskExitCore wf s c) := by
+  unfold taskExitCore
   dsimp only
   split
   · refine ⟨fun j h => ?_, fun j f h => ?_, ?_⟩
@@ -205,6 +211,12 @@ theorem taskExit_mono {wf exc s} (c : Nat) (hI : Inv wf exc s) : Mono s (taskExi
         · split <;> simp [h]
       · split <;> split <;> simp [hj, h]
     · split <;> split <;> simp
+  · exact Mono.refl s
+
+theorem taskExit_mono {wf exc s} (c : Nat) (hI : Inv wf exc s) : Mono s (taskExit wf s c) := by
+  unfold taskExit
+  split
+  · exact taskExitCore_mono c hI
   · exact Mono.refl s
 
 end St4sd.C02L
